@@ -84,6 +84,12 @@ def haze_bounds(ix, R, site, tag, profile_spec, profile_space):
 
 
 def run(ix, R):
+    _run(ix, R)
+    from rules.common import memo_obligation
+    memo_obligation(ix, R, 'M.memo', ['taurex/contributions/simpleclouds.py', 'taurex/contributions/flatmie.py', 'taurex/contributions/leemie.py'], 'clouds and hazes')
+
+
+def _run(ix, R):
     # ---- 1. clouds
     site = SC + '::SimpleCloudsContribution.prepare_each'
     with R.guard('1.mask', 'ALG', site, 'cloud mask'):
